@@ -280,8 +280,8 @@ CHECKS.update({
 
 CHECKS.update({
     "C43": dict(title="CpuSet set algebra, CPU-list parsing and grouping are correct", level="exploration",
-                technique="rapidcheck model-based testing (std::set model, grammar-generated CPU lists, synthetic topologies with a validity predicate) + exhaustive enumeration of all short strings over a small alphabet; ASan+UBSan variant",
-                text="(a) op sequences over add/addRange/remove/removeRange/contains/count/clear with ids biased to 0, CPU_SETSIZE, INT32_MIN/MAX against a std::set clipped to [0,CPU_SETSIZE); (b) CPU lists generated from the kernel's grammar (ids up to 2^20, ranges, reversed ranges, trailing newline): parsed set equals the denoted in-range ids; (c) ALL 299593 strings of length <= 6 over {0,1,9,-,comma,space,newline,x}: no crash / sanitizer report, and exact set whenever a strict reference parser accepts the string; (d) synthetic topologies (L2 partitions sorted by first id, SMT-style sibling ids, L3 groups as unions of L2 groups or absent / partial, maxGroupSize 1..64): groups partition the L2 cpus, no L2 group split, no group with cpus of two known L3 groups, size <= max(maxGroupSize, largest L2), affinity mask == members.",
+                technique="rapidcheck model-based testing (std::set model, grammar-generated CPU lists, synthetic topologies with a validity predicate) + exhaustive enumeration of all short strings over a small alphabet; ASan+UBSan variant; libFuzzer target (coverage-guided, ASan+UBSan) over parseLinuxCpuList / parseCacheGroupsFromTopologySpec / buildGroupsFromCacheTopology with reference-parser and grammar-generated-document oracles inside",
+                text="(a) op sequences over add/addRange/remove/removeRange/contains/count/clear with ids biased to 0, CPU_SETSIZE, INT32_MIN/MAX against a std::set clipped to [0,CPU_SETSIZE); (b) CPU lists generated from the kernel's grammar (ids up to 2^20, ranges, reversed ranges, trailing newline): parsed set equals the denoted in-range ids; (c) ALL 299593 strings of length <= 6 over {0,1,9,-,comma,space,newline,x}: no crash / sanitizer report, and exact set whenever a strict reference parser accepts the string; (d) synthetic topologies (L2 partitions sorted by first id, SMT-style sibling ids, L3 groups as unions of L2 groups or absent / partial, maxGroupSize 1..64): groups partition the L2 cpus, no L2 group split, no group with cpus of two known L3 groups, size <= max(maxGroupSize, largest L2), affinity mask == members; (e) libFuzzer: raw bytes to the CPU-list parser (strict reference parser as oracle on well-formed lists), raw bytes to the FreeBSD topology_spec parser (groups non-empty, sorted by first cpu, cache ids a permutation) and topology documents generated from the bytes by a grammar (nested groups, optional cache-level, own cpu lists, children): exactly the groups of the requested level, ids in document order.",
                 note=RC_NOTE + " The FreeBSD topology-spec XML parser is exercised by C11's fuzz target only.", design_ref="§4 C43",
                 parts=[rc("cpuset", "algebra"), rc("cpuset", "cpulist"), rc("cpuset", "strings"), rc("cpuset", "group"),
                        rc("cpuset", "strings", variant="rcasan"), rc("cpuset", "cpulist", variant="rcasan", quick=30000, thorough=300000),
@@ -447,7 +447,7 @@ CHECKS.update({
                 assumptions=["ThreadSanitizer (clang 14) is a sound happens-before detector for the operations it models; reports inside the harness itself were removed by construction (relaxed-atomic bookkeeping)",
                              "covers the paths the generated programs execute under the machine's natural schedules; not an enumeration of interleavings"]),
     "C11": dict(title="Memory safe and leak free, including error paths", level="exploration",
-                technique="program-level PBT: the same generated programs (incl. throwing tasks, cancellation, pipelines unwinding after an exception, detach / destroy of timed tasks, pool teardown) run natively under AddressSanitizer + UndefinedBehaviourSanitizer with a LeakSanitizer check after every case; plus the rapidcheck container-history models (ConcurrentVector, SmallVector, OnceFunction, OpResult, CpuSet parsers) under ASan/UBSan; the error-path harnesses with lifetime ledgers (pipeline faults, TimedTask teardown, Future results, ring elements, throwing tasks) also run under the dsched schedule explorer, where the ledger is the leak oracle and freed blocks are poisoned and scanned for later writes",
+                technique="program-level PBT: the same generated programs (incl. throwing tasks, cancellation, pipelines unwinding after an exception, detach / destroy of timed tasks, pool teardown) run natively under AddressSanitizer + UndefinedBehaviourSanitizer with a LeakSanitizer check after every case; plus the rapidcheck container-history models (ConcurrentVector, SmallVector, OnceFunction, OpResult, CpuSet parsers) under ASan/UBSan; the libFuzzer target over the CpuSet text parsers; the error-path harnesses with lifetime ledgers (pipeline faults, TimedTask teardown, Future results, ring elements, throwing tasks) also run under the dsched schedule explorer, where the ledger is the leak oracle and freed blocks are poisoned and scanned for later writes",
                 text=SAN_PROGRAMS + "compiled with -fsanitize=address,undefined (-fno-sanitize-recover), LeakSanitizer run after each case: out-of-bounds, use-after-free, UB and leaked allocations are violations; a subset again with -fsanitize=undefined alone on glibc malloc (ASan's allocator over-aligns and hides misaligned construction of cache-line-aligned types). Stateful container histories (insert / erase / grow / shrink / move / swap / clear over element types with lifetime tracking) run under the same sanitizers via rapidcheck.",
                 note="Exception, cancellation and shutdown paths are reached by construction (generators of C04, C05, C29, C26, C09-style teardown). Leak check = allocations of a case that are neither freed nor reachable when the case ends.",
                 design_ref="§4 C11",
